@@ -76,6 +76,54 @@ def reads_before_write(body, field):
     return False
 
 
+SELF_LOAD = re.compile(r"load\(\*?load\(self\)\.([A-Za-z0-9_.]+?)(?:\.len)?\)")
+
+
+def related(f, g):
+    """is one field path a prefix of the other (the same storage overlaps)"""
+    a, b = f.split("."), g.split(".")
+    n = min(len(a), len(b))
+    return a[:n] == b[:n]
+
+
+def written_first_on_all_paths(paths, f):
+    """on every path that does not end in an error, the first thing that happens to self.<f> is a store that covers it:
+    the value it had at entry (left there by a suspended attempt) can never be observed"""
+    def mentions(x):
+        if isinstance(x, str):
+            return any(related(f, g) for g in SELF_LOAD.findall(x))
+        if isinstance(x, (tuple, list)):
+            return any(mentions(y) for y in x)
+        return False
+    for p in paths:
+        if p and p[-1] == ("end", "err"):
+            continue
+        verdict = None
+        for t in p:
+            if t[0] in ("end", "final", "probe"):
+                continue
+            if t[0] == "store":
+                if mentions(t[2]):
+                    verdict = False
+                    break
+                g = t[1]
+                if not g.startswith("via:") and (g == f or f.startswith(g + ".")):
+                    verdict = True
+                    break
+                continue
+            if mentions(t[1:]):
+                verdict = False
+                break
+        if verdict is False:
+            return False
+        if verdict is None and not (p and p[-1][0] == "end" and p[-1][1] == "err"):
+            # never touched on a path that carries on: whatever the suspended attempt left stays visible later
+            rets = [t for t in p if t[0] == "returns"]
+            if not (rets and "NotEnoughBytes" in rets[-1][1]):
+                return False
+    return True
+
+
 def suspend_paths(env, rep, rule, m):
     prog, ctx = env.prog, env.ctx
     gn = m.b["get_next"]
@@ -85,7 +133,8 @@ def suspend_paths(env, rep, rule, m):
         sb = prog.bodies[ck]
         rep.fn(sb.key)
         name = sb.pretty.split("::")[-1]
-        for p in [sig(p) for p in grammar.trace(env, sb.key, "r").paths]:
+        all_paths = [sig(p) for p in grammar.trace(env, sb.key, "r").paths]
+        for p in all_paths:
             rets = [t for t in p if t[0] == "returns"]
             if not rets or "NotEnoughBytes" not in rets[-1][1]:
                 continue
@@ -106,7 +155,7 @@ def suspend_paths(env, rep, rule, m):
                 top = f.split(".")[0]
                 if top == "buffer":
                     continue
-                live = reads_before_write(sb, top)
+                live = reads_before_write(sb, top) and not written_first_on_all_paths(all_paths, f)
                 others = [b.pretty.split("::")[-1] for b in pub_methods if reads_before_write(b, top)]
                 if live or others:
                     problems.append("it has already written %s, whose old value %s" % (f, "the same stage function reads when it is re-entered" if live else "is read by " + ", ".join(others)))
